@@ -126,7 +126,10 @@ def build(m):
                 me["_offs"][s] = len(vbuf)
                 vbuf += me["streams"][s]
         for me in l:
-            if m.get("stream_shuffle_seed") is None:
+            if m.get("stream_shuffle_seed") is None and me.get("alias_of") is not None:
+                # this mesh addresses the very same bytes as an earlier mesh of the LOD (equal stream offsets, strides and count)
+                me["_offs"] = list(l[me["alias_of"]]["_offs"])
+            elif m.get("stream_shuffle_seed") is None:
                 offs = [0, 0, 0]
                 for s in range(me["nstreams"]):
                     offs[s] = len(vbuf)
